@@ -112,7 +112,7 @@ func validateRegexEncoding(l *sym.Loaded, nr *nativeRules, seed int64, perRule i
 	var mm []string
 	alpha := " !#$%&()*+,-./019:;=?@ABZ[\\]^_`abz{|}~"
 	for i, r := range nr.rules {
-		pat := rules.VerifCompiledPattern(r)
+		pat := safeCompiledPattern(r)
 		if pat == "" {
 			continue
 		}
@@ -201,3 +201,14 @@ func init() {
 }
 
 var _ = sort.Strings
+
+// safeCompiledPattern calls the repository's translation natively; a crash there is
+// left to the symbolic jobs to report (they replay it), the enumeration just goes on.
+func safeCompiledPattern(r *rules.NetworkRule) (pat string) {
+	defer func() {
+		if recover() != nil {
+			pat = ""
+		}
+	}()
+	return rules.VerifCompiledPattern(r)
+}
